@@ -87,6 +87,9 @@ for _n in (3, 4):
                 return 'RESULT'
             c.ip.summaries['path.bezier_radialrange'] = spy
             r = c.callm(seg, 'radialrange', z)
+            c.ensures('bezier_radialrange-is-consulted', 'args' in got)
+            if 'args' not in got:
+                return
             a, k = got['args']
             c.ensures('delegates-to-bezier_radialrange(self, origin)',
                       ops.And(r == 'RESULT', a[0] is seg, c.py_eq(a[1], z), not k.get('return_all_global_extrema', False)))
